@@ -209,6 +209,7 @@ def run_impl(case):
         grid = np.array([float(F(t)) for t in case['grid']], dtype=float)
         ok_grid = _grid_ok(case['grid'], vlib.to_fraction(w.duration))
         per = []
+        keep = []
         for c in case['chans']:
             ch = CH[c]
             o = {'c': c}
@@ -219,7 +220,11 @@ def run_impl(case):
                 o['cv'] = g[1]
             else:
                 o['cv'] = None
-            g = _guard(lambda: _vals(py_build(case['r']).get_sampled(ch, grid.copy())))
+            def gs_call():
+                res = py_build(case['r']).get_sampled(ch, grid.copy())
+                keep.append(res)
+                return _vals(res)
+            g = _guard(gs_call)
             if g[0] not in ('ok', 'err'):
                 return {'crash': 'get_sampled: %s' % (g,)}
             o['gs'] = _sres(g)
@@ -260,6 +265,7 @@ def run_impl(case):
             return {'crash': str(b)}
         w = b[1]
         arrays = {}
+        keep = []
         answers, fresh = [], []
         for op in case['ops']:
             if op[0] == 'set':
@@ -272,7 +278,11 @@ def run_impl(case):
             _, c, aid, use_out = op
             ts = arrays[aid]
             out = np.full(len(ts), np.nan) if use_out else None   # unassigned entries stay NaN
-            g = _guard(lambda: _vals(w.get_sampled(CH[c], ts, out) if use_out else w.get_sampled(CH[c], ts)))
+            def one_call():
+                res = w.get_sampled(CH[c], ts, out) if use_out else w.get_sampled(CH[c], ts)
+                keep.append(res)          # results stay alive: Waveform.__sampled_cache is a WeakValueDictionary
+                return _vals(res)
+            g = _guard(one_call)
             if g[0] not in ('ok', 'err'):
                 return {'crash': 'history call: %s' % (g,)}
             answers.append(_sres(g))
@@ -665,6 +675,49 @@ def gen_subset_targets(rng, n):
     return out
 
 
+def gen_fold_targets(rng, n):
+    """sequences whose parts all report the SAME constants (from_sequence folds them) with different part durations,
+    a deviating part now and then, nested sequences (flattening), and the same below repetition / arithmetic"""
+    out = []
+    for _ in range(n):
+        chans = sorted(rng.sample(range(5), rng.choice([1, 1, 2])))
+        vals = {c: rng.choice(VOLT) for c in chans}
+        dur = rng.choice([3, 4, 5, 6, 8]) * Q4
+
+        def cpart(d, deviate=False):
+            ps = []
+            for c in chans:
+                v = vals[c] + (1 if deviate and c == chans[0] else 0)
+                k = rng.choice(['const', 'const', 'table', 'rep'])
+                nq = int(d / Q4)
+                if k == 'table':
+                    ps.append(['table', True, c, [['0', fs(v), 'h'], [fs(d), fs(v), rng.choice('hlj')]]])
+                elif k == 'rep' and nq % 2 == 0:
+                    ps.append(['rep', rng.random() < 0.5, ['const', fs(d / 2), fs(v), c], 2])
+                else:
+                    ps.append(['const', fs(d), fs(v), c])
+            return ps[0] if len(ps) == 1 else ['multi', rng.random() < 0.5, ps]
+        parts = split_dur(rng, dur, rng.choice([2, 3]))
+        dev = rng.random() < 0.25
+        items = [cpart(p, dev and i == len(parts) - 1) for i, p in enumerate(parts)]
+        if rng.random() < 0.3 and len(items) == 3:
+            items = [items[0], ['seq', rng.random() < 0.5, items[1:]]]          # nested: flattened by from_sequence
+        r = ['seq', True, items]
+        wrap = rng.choice(['none', 'none', 'rep', 'arith', 'functor', 'rev', 'trans'])
+        if wrap == 'rep':
+            r, dur = ['rep', True, r, 2], dur * 2
+        elif wrap == 'arith':
+            r = ['arith', True, r, rng.choice('+-'), cpart(dur)]
+        elif wrap == 'functor':
+            r = ['functor', True, r, [[c, rng.choice(['neg', 'abs'])] for c in chans]]
+        elif wrap == 'rev':
+            r = ['fromrev', r]
+        elif wrap == 'trans':
+            r = ['trans', True, r, ['offset', [[chans[0], ['c', '1/2']]]]]
+        out.append((r, dur, chans))
+    return out
+
+
 def malformed_recipes(rng):
     c = lambda d, v, ch: ['const', fs(d), fs(v), ch]   # noqa
     t = lambda ch, ents, val=True: ['table', val, ch, [[fs(a), fs(b), i] for a, b, i in ents]]   # noqa
@@ -793,6 +846,8 @@ def gen_cases(rng, tier, ctx):
             dur = 2 * dur
         add_sample(r, dur, [1])
     for r, dur, chans in gen_subset_targets(rng, 40 if tier == 'quick' else 500):
+        add_sample(r, dur, chans)
+    for r, dur, chans in gen_fold_targets(rng, 40 if tier == 'quick' else 500):
         add_sample(r, dur, chans)
     for r in exhaustive_small(tier):
         dur = F(1)
